@@ -722,12 +722,16 @@ func (s *Shard) validateSeriesAndFields(points []models.Point) ([]models.Point, 
 				continue
 			}
 
-			if mf.FieldBytes(fieldKey) != nil {
+			dataType := dataTypeFromModelsFieldType(iter.Type())
+			if dataType == influxql.Unknown {
 				continue
 			}
 
-			dataType := dataTypeFromModelsFieldType(iter.Type())
-			if dataType == influxql.Unknown {
+			// The field may have been created by a concurrent write since the
+			// validator looked at it. If it now exists with another type, keep it
+			// in the list: creating it reports the type conflict, instead of
+			// values of a second type being stored silently.
+			if f := mf.FieldBytes(fieldKey); f != nil && f.Type == dataType {
 				continue
 			}
 
